@@ -272,7 +272,12 @@ func addConflict(out *[]Conflict, seen map[string]bool, a RouteEntry, b RouteEnt
 		aPath, bPath = bPath, aPath
 		a, b = b, a
 	}
-	key := aPath + "||" + bPath + "||" + reason
+	// Identify the pair by the entries themselves (verb and receiver) rather than by path text alone,
+	// otherwise distinct routes sharing a path are swallowed as duplicates of an earlier conflict
+	key := fmt.Sprintf(
+		"%s %s||%s %s||%p||%p||%s",
+		a.Method, aPath, b.Method, bPath, a.Meta.Receiver, b.Meta.Receiver, reason,
+	)
 	if seen[key] {
 		return
 	}
